@@ -63,24 +63,33 @@ structure PanelCfg where
   panelSize : Nat
   relax : Nat
 
+/-- `w = panel_size; for (k = i+1; k < min(i+panel_size, n); ++k) if (k == next relaxed fcol) { w = k - i; break; }`
+`if (k == n) w = n - i;` — the C loop leaves k == n exactly when it ran to min(i+panel_size, n) == n without a hit -/
+def pw0 (c : PanelCfg) (i nextRelaxFcol : Nat) : Nat :=
+  let lim := min (i + c.panelSize) c.n
+  match (List.range' (i + 1) (lim - (i + 1))).find? (fun k => k == nextRelaxFcol) with
+  | some k => k - i
+  | none => if lim == c.n && lim - i < c.panelSize then c.n - i else c.panelSize
+
+/-- `w_top = panel_size/2; if (w_top == 0) w_top = 1;` -/
+def pwTop (c : PanelCfg) : Nat := if c.panelSize / 2 == 0 then 1 else c.panelSize / 2
+
+/-- SPLIT_TOP: `if (do_split && w > w_top) { w = w_top; ++num_splits; }` -/
+def pw1 (split : Bool) (wTop w0 : Nat) : Nat × Nat := if split && decide (w0 > wTop) then (wTop, 1) else (w0, 0)
+
+/-- do not cross a branch point: `for (j = i+1; j < i+w; ++j) if (ukids[j] > 1) { w = j - i; break; }` -/
+def pw2 (ukids0 : Array Int) (i w1 : Nat) : Nat :=
+  match (List.range' (i + 1) (w1 - 1)).find? (fun j => decide (getZ ukids0 j > 1)) with
+  | some j => j - i
+  | none => w1
+
 /-- one iteration of the partition loop of `ParallelInit` starting at column `i` with the relaxed
 snode cursor `rs` (a list of the remaining relaxed snodes); returns the width and type. -/
 def panelWidth (c : PanelCfg) (ukids0 : Array Int) (i : Nat) (nextRelaxFcol : Nat) (doSplit : Bool) : Nat × Bool × Nat :=
-  -- w = panel_size; stop before the next relaxed snode
-  let w0 :=
-    let lim := min (i + c.panelSize) c.n
-    match (List.range' (i + 1) (lim - (i + 1))).find? (fun k => k == nextRelaxFcol) with
-    | some k => k - i
-    | none => if lim == c.n && lim - i < c.panelSize then c.n - i else c.panelSize
-  -- the C loop leaves k == n exactly when it ran to min(i+panel_size, n) == n without a hit
-  let wTop := if c.panelSize / 2 == 0 then 1 else c.panelSize / 2
+  let w0 := pw0 c i nextRelaxFcol
   let doSplit' := doSplit || (SPLIT_TOP && decide (c.n - i < c.panelSize * SPLIT_P))
-  let (w1, splits) := if SPLIT_TOP && doSplit' && decide (w0 > wTop) then (wTop, 1) else (w0, 0)
-  -- do not cross a branch point
-  let w2 := match (List.range' (i + 1) (w1 - 1)).find? (fun j => decide (getZ ukids0 j > 1)) with
-    | some j => j - i
-    | none => w1
-  (w2, doSplit', splits)
+  let (w1, splits) := pw1 (SPLIT_TOP && doSplit') (pwTop c) w0
+  (pw2 ukids0 i w1, doSplit', splits)
 
 structure InitAcc where
   sh : Sh
